@@ -9,9 +9,10 @@ import FuelVerif.Model.AluBase
 import FuelVerif.Model.VmMem
 import FuelVerif.Model.Instr
 import FuelVerif.Model.Alu
+import FuelVerif.Gen.Fetch
 import FuelVerif.Basic.Util
 namespace FuelVerif.Alu
-open FuelVerif.Gen.AluArgs
+open FuelVerif.Gen.AluArgs FuelVerif.Gen.Fetch
 
 inductive JumpMode | Assign | RelativeIS | RelativeForwards | RelativeBackwards
   deriving DecidableEq, Repr
@@ -108,12 +109,19 @@ def stepJump (w : Nat) (r : Regs) : Option Out :=
       | some op => some (execJump op i.args r)
       | none => none
 
-/-- `fetch_instruction`: read 4 bytes at `$pc`, then the executable-range check -/
+/-- the rejecting condition of `fetch_instruction`, over the clauses extracted from the Rust text
+(`Gen/Fetch.lean`): `pc < $R` for each lower-bound register, `pc >= $R` for each upper-bound register -/
+def fetchRejected (r : Regs) : Bool :=
+  let pc := r fetchAddrReg
+  fetchLowerBoundRegs.any (fun l => decide (pc < r l)) || fetchUpperBoundRegs.any (fun u => decide (pc ≥ r u))
+
+/-- `fetch_instruction`: read `fetchBytes` bytes at the fetch address register, then the executable-range check
+(registers, width and panic reason regenerated from instruction.rs) -/
 def fetchInstruction (m : Mem) (r : Regs) : Except Panic (List UInt8) :=
-  match m.readBytes (r regPC) 4 with
+  match m.readBytes (r fetchAddrReg) fetchBytes with
   | .error p => .error p
   | .ok raw =>
-    if r regPC < r regIS ∨ r regPC ≥ r regSSP then .error .MemoryNotExecutable
+    if fetchRejected r then .error fetchRangePanic
     else .ok raw
 
 /-- `Interpreter::execute`: `fetch_instruction`, then `instruction_inner`, for programs made of ALU and
